@@ -1,6 +1,6 @@
 """C16 - local-Clifford layer search sound and complete (literal-table clauses)."""
 from ..rules_flow import Flow
-from ..rules_k import K6_filter, K7_branches, K7_two_qubits, K9_enumeration, E1_typed_empties, E1_kernel_shape, FLC
+from ..rules_k import K16_system_rows, K6_filter, K7_branches, K7_two_qubits, K9_enumeration, E1_typed_empties, E1_kernel_shape, FLC
 
 
 def run(tree, rep, tier):
@@ -10,6 +10,7 @@ def run(tree, rep, tier):
     K7_branches(rep, flow)
     K7_two_qubits(rep, flow)
     K9_enumeration(rep, flow)
+    K16_system_rows(rep, flow)
     E1_typed_empties(rep, flow, [FLC, "f2_algebra.null_space"])
     E1_kernel_shape(rep, flow)
     rep.trusted += ["N1"]
